@@ -28,7 +28,8 @@ type txT struct {
 	Method     transaction.MethodName
 	Body       any
 	FeeAmt     uint64
-	Gas        uint64 // 0 = plenty
+	Gas        uint64 // 0 = plenty (unless ExactGas)
+	ExactGas   bool
 	NoFee      bool
 	NonceDelta int    // 0 current, +k future, -1 stale
 	Raw        []byte // pre-built bytes (replays, forgeries); overrides everything else
@@ -234,7 +235,7 @@ func (b *bundle) buildBlock(l *letter) *chain.Block {
 		var fee *transaction.Fee
 		if !t.NoFee {
 			gas := t.Gas
-			if gas == 0 {
+			if gas == 0 && !t.ExactGas {
 				gas = 10000
 			}
 			fee = chain.Fee(t.FeeAmt, gas)
